@@ -137,10 +137,17 @@ type cand struct {
 	K int    `json:"k"`
 	F uint64 `json:"f,string"` // as a string: results travel through float64 JSON numbers otherwise
 	P int    `json:"p"`
+	// C: the block arrives with this value in its BasePlasma field (0 = unset, as an honest wallet leaves it). The field
+	// is on the wire but not covered by the hash: the node must compute the base cost itself whatever a sender claims.
+	C uint64 `json:"c,string,omitempty"`
 }
 
 func (cd cand) String() string {
-	return fmt.Sprintf("%s,f=%d,pow=%s", kinds[cd.K].Name, cd.F, powNames[cd.P])
+	s := fmt.Sprintf("%s,f=%d,pow=%s", kinds[cd.K].Name, cd.F, powNames[cd.P])
+	if cd.C != 0 {
+		s += fmt.Sprintf(",claimed-base=%d", cd.C)
+	}
+	return s
 }
 
 type step struct {
@@ -380,7 +387,7 @@ func (e *env) build(st *mstate, cd cand, nn *stateNonces) *nom.AccountBlock {
 	b := &nom.AccountBlock{
 		Version: 1, ChainIdentifier: e.chainID, Address: e.addr,
 		PreviousHash: st.Prev.Hash, Height: st.Prev.Height + 1, MomentumAcknowledged: e.ack,
-		FusedPlasma: cd.F,
+		FusedPlasma: cd.F, BasePlasma: cd.C,
 	}
 	kinds[cd.K].fill(e, st, b)
 	d, nonce := nn.option(cd.P)
@@ -563,6 +570,13 @@ func (x *explorer) candidates(e *env, st *mstate, pset []int, heavyW uint64, ric
 		for _, f := range fusedDomain(kinds[ki].Base, avail, heavyW, rich) {
 			for _, p := range pset {
 				out = append(out, cand{K: ki, F: f, P: p})
+			}
+			if f < kinds[ki].Base {
+				// pays less than the base cost and claims, in the unhashed BasePlasma field, a cost it does pay
+				out = append(out, cand{K: ki, F: f, P: powNone, C: 1})
+				if f > 1 {
+					out = append(out, cand{K: ki, F: f, P: powNone, C: f})
+				}
 			}
 		}
 	}
